@@ -48,6 +48,8 @@ eca7f36 C18 C18-orphan-notification-handler
 100d1a6 C07 C07-get-proxy-stale-content-length
 ae42e46 C19 C19-upgrade-headers-on-non-get
 a0f137c C06 C06-unsubscribe-false-right-after-accept-response
+97dc7d4 C12 C12-repeated-id-last-answer-wins
+9f80659 C08 C08-subscribe-accept-reply-not-bounded
 LIST
 rm -rf /verif/replays
 (cd /verif/sim && cargo build --release --offline -q 2>/dev/null)
